@@ -165,10 +165,18 @@ var c10Graph = &vlib.Check{
 	},
 }
 
-func init() { vlib.Register(c10Model, c10Unused, c10Graph) }
+var c10Shared = &vlib.Check{
+	Prop: "C10", Name: "shared-macro", Quick: 1200, Thorough: 100000,
+	Oracle:   sameCatalogOracle("c10", "macro"),
+	Gen:      func(t *rapid.T) *vlib.Case { return sharedPieceCase(vlib.RapidRnd{T: t}, "macro") },
+	Classify: func(c *vlib.Case) (bool, []string) { return true, []string{"macro-reused"} },
+}
+
+func init() { vlib.Register(c10Model, c10Unused, c10Graph, c10Shared) }
 
 func TestC10(t *testing.T) {
 	t.Run("model-macroize", c10Model.Run)
 	t.Run("unused-definitions", c10Unused.Run)
 	t.Run("call-graphs", c10Graph.Run)
+	t.Run("shared-macro", c10Shared.Run)
 }
